@@ -313,7 +313,10 @@ def motion_op_strategy(coord=None, shapes=True, depth=2):
         st.sampled_from([{"decimal_places": 1}, {"decimal_places": 0, "y_axis": "V"},
                          {"x_axis": "A", "z_axis": "C", "comment_symbols": "("},
                          {"decimal_places": 9, "line_endings": "\\r\\n"}]).map(
-            lambda c: {"op": "other_builder", "cfg": c}))
+            lambda c: {"op": "other_builder", "cfg": c}),
+        # a traced path that fails part-way (a hook raises on segment after+1)
+        st.tuples(st.sampled_from(["circle", "polyline", "spline"]), st.integers(0, 4)).map(
+            lambda t: {"op": "call", "call": {"op": "aborted_path", "shape": t[0], "after": t[1]}}))
     # ops that emit nothing and are carried out by the property's own `before`
     # hook (C01): relabelling an axis in the middle of a history, and the
     # pure conversion helpers to_absolute / to_absolute_list / to_distance_mode
